@@ -434,8 +434,8 @@ impl KOp {
         if r > 0 {
             cx.digest = digest(unsafe { std::slice::from_raw_parts(ptr as *const u8, r as usize) });
         }
-        if r < 0 {
-            // an error does not consume the selected buffer
+        if r <= 0 {
+            // an error or end of file does not consume the selected buffer (the kernel recycles it, no F_BUFFER)
             if flags & CQE_F_BUFFER != 0 {
                 if let Some(pr) = cx.pbufs.get_mut(&self.buf_group) {
                     pr.head = pr.head.wrapping_sub(1);
@@ -487,6 +487,10 @@ impl KOp {
         let fd = self.fd;
         let iov = self.addr as *const libc::iovec;
         let cnt = self.len as i32;
+        crate::klog(|| {
+            let v: Vec<usize> = (0..cnt as usize).map(|i| unsafe { (*iov.add(i)).iov_len }).collect();
+            format!("kernel:   iovec lengths {v:?}")
+        });
         let stream = is_stream(fd);
         let r = if self.opcode == OP_READV {
             if stream || self.off == u64::MAX {
@@ -573,7 +577,7 @@ impl KOp {
         msg.msg_controllen = controllen;
         msg.msg_iov = &mut iov;
         msg.msg_iovlen = 1;
-        let r = ret(unsafe { libc::recvmsg(fd, &mut msg, fl | libc::MSG_TRUNC) });
+        let r = ret(unsafe { libc::recvmsg(fd, &mut msg, fl) });
         if r == -libc::EAGAIN {
             if let Some(pr) = cx.pbufs.get_mut(&self.buf_group) {
                 pr.head = pr.head.wrapping_sub(1);
